@@ -94,6 +94,9 @@ def run(tier):
         dst = os.path.join(e2dir, name)
         shutil.copytree(os.path.join(ws, p[2:]), dst)
         rel = "./fixe2e/" + name
+        # the go/analysis driver re-formats a file it has edited: the copies are gofmt-ed first, so that what
+        # changes afterwards is the work of the fixes and not of the formatter
+        vlib.sh(["gofmt", "-w", dst], timeout=300)
         rc, so, se = vlib.sh([os.path.join(bins, "go-critic-analysis"), "-json", "-enable-all", "-disable=ruleguard", rel], cwd=ws, timeout=900)
         try:
             js = json.loads(so)
